@@ -7,6 +7,7 @@ import (
 	"go/printer"
 	"go/token"
 	"os"
+	"path/filepath"
 	"regexp"
 
 	"github.com/reedom/convergen/pkg/builder"
@@ -74,6 +75,9 @@ func NewParser(srcPath, dstPath string) (*Parser, error) {
 			return file, nil
 		},
 	}
+	// Whatever a previous run left at the output path (stale, truncated or broken code)
+	// must not affect this run, so hide its content from the package loader as well.
+	cfg.Overlay = dstOverlay(srcPath, dstPath, dstStat)
 	pkgs, err := packages.Load(cfg, "file="+srcPath)
 	if err != nil {
 		return nil, logger.Errorf("%v: failed to load type information: \n%w", srcPath, err)
@@ -93,6 +97,27 @@ func NewParser(srcPath, dstPath string) (*Parser, error) {
 		opts:    option.NewOptions(),
 		imports: util.NewImportNames(fileSrc.Imports),
 	}, nil
+}
+
+// dstOverlay returns an overlay that replaces the content of an existing generation target
+// file in the setup file's directory with a bare package clause.
+func dstOverlay(srcPath, dstPath string, dstStat os.FileInfo) map[string][]byte {
+	if dstStat == nil || !dstStat.Mode().IsRegular() {
+		return nil
+	}
+	srcAbs, err := filepath.Abs(srcPath)
+	if err != nil {
+		return nil
+	}
+	dstAbs, err := filepath.Abs(dstPath)
+	if err != nil || filepath.Dir(srcAbs) != filepath.Dir(dstAbs) {
+		return nil
+	}
+	file, err := parser.ParseFile(token.NewFileSet(), srcPath, nil, parser.PackageClauseOnly)
+	if err != nil || file.Name == nil {
+		return nil
+	}
+	return map[string][]byte{dstAbs: []byte("package " + file.Name.Name + "\n")}
 }
 
 // Parse parses convergen annotations in the source code.
